@@ -55,7 +55,8 @@ def ring_hist(rng, nops):
     sc.append("rzero"); nr += 1
     if rng.random() < 0.5:
         # the first call on a never-touched zero ring (lazy init inside the method), incl. Link(nil) and Unlink(0)
-        sc.append(rng.choice(["rlink %d -1", "rlink %d %d", "runlink %d 0", "rmove %d 0", "rlen %d", "rdo %d", "rnext %d"]).replace("%d", str(nr - 1)))
+        sc.append(rng.choice(["rlink %d -1", "rlink %d %d", "runlink %d 0", "runlink %d 1", "runlink %d 3", "runlink %d -2", "rmove %d 0", "rmove %d 2", "rmove %d -1", "rprev %d",
+                              "rlen %d", "rdo %d", "rnext %d"]).replace("%d", str(nr - 1), 1).replace("%d", str(nr - 1)))
     for _ in range(nops):
         r = rng.random()
         a, b = rng.randrange(nr), rng.randrange(nr)
